@@ -302,14 +302,17 @@ PLANS = {
     ),
     # not a listed property: growth of the specification beyond the list (DESIGN section 10); run with ./check extras
     "_extras": dict(
-        sany=["DltMisc.tla", "trace/TraceCodes.tla", "trace/TraceStats.tla"],
+        sany=["DltMisc.tla", "NvDecode.tla", "trace/TraceCodes.tla", "trace/TraceStats.tla", "trace/TraceDecode.tla"],
         steps=[
             rec("codes", "misc", "TraceCodes", 300, 5000, 1, 2),
             rec("stats", "pipeline", "TraceStats", 600, 20000, 2, 8),
+            rec("fibex", "decode", "TraceDecode", 200, 4000, 2, 8),
         ],
         rule="service ids / control types: all 256 bytes; type widths, argument counts: seeded random; pipeline: seeded random well-formed streams x random filters",
         explanation="Beyond the listed properties: service_id_lookup, ControlType::from_value / value, TypeInfo::type_width, PayloadContent::arg_count, LogLevel -> log::Level "
                     "against tables in DltMisc; and the composed behaviour reader -> parse -> filter -> statistics: for well-formed streams read_message(filter) yields the marker "
-                    "exactly for the dropped messages, kept + dropped = number of messages = ECU total of collect_statistics.",
+                    "exactly for the dropped messages, kept + dropped = number of messages = ECU total of collect_statistics; and non-verbose decoding end to end "
+                    "(NvDecode: load FIBEX files, parse a non-verbose message, extract_metadata by (context id, application id, message id) or by id alone, construct_arguments "
+                    "from the frame's signal types) = the composition of the loader machine, the reference decoder, Lookup and ConstructArgs.",
     ),
 }
